@@ -561,11 +561,15 @@ def generic_diff(mod, ctx, cases, cov, violations, known_hits, notes):
     classify = getattr(mod, "classify_finding", None)
     mism = []
     reported = 0
+    split_impl = getattr(mod, "split_impl", None)
     for i, c in enumerate(cases):
         io, mo = impl[i], model[i]
+        io_full = io
+        if split_impl is not None:
+            io = split_impl(c, io)      # part of the observation the model also produces
         bad_oracle = None
         if oracle is not None and full:
-            r = oracle(c, io)
+            r = oracle(c, io_full)
             if r is not None:
                 cov["oracle_evaluated"] += 1
                 okk, why = r
@@ -573,8 +577,11 @@ def generic_diff(mod, ctx, cases, cov, violations, known_hits, notes):
                     bad_oracle = why
                     cov["oracle_failed"] += 1
         if bad_oracle is not None:
-            fid = classify(c, io) if classify else None
-            if fid:
+            fid = classify(c, io_full) if classify else None
+            # a listed finding is only recognised when the faithful model reproduces the
+            # implementation's behaviour exactly; the same symptom with a different
+            # observation is a different violation
+            if fid and io == mo:
                 known_hits.setdefault(fid, "%s on `%s`" % (bad_oracle, short(c.line, 160)))
                 continue
             if reported < 5:
